@@ -417,7 +417,7 @@ TIMEOUT_RULES = {
     "hash_in_loop": ('import "hash"\nrule t { condition: for all i in (0..100000000) : ( hash.md5(0, filesize) != "x" ) }', "61*4000000"),
     "math_in_loop": ('import "math"\nrule t { condition: for all i in (0..100000000) : ( math.entropy(0, filesize) >= 0.0 ) }', "61*4000000"),
     "regex_dotstar": ('rule t { strings: $a = /a.*b.*c.*d.*e/ condition: $a }', "61*30000000"),
-    "hex_jumps": ('rule t { strings: $b = { 61 [0-100] 61 [0-100] 61 [0-100] 62 } condition: $b }', "61*30000000"),
+    "hex_jumps": ('rule t { strings: $b = { 61 [0-40] 61 [0-40] 61 [0-40] 62 } condition: $b }', "61*30000000"),
     "regex_alt_plus": ('rule t { strings: $a = /aa(a|b)+c/ condition: $a }', "61*30000000"),
     "match_loops": ('rule t { strings: $a = "aaaa" condition: for all i in (1..#a) : ( for all j in (1..#a) : ( @a[i] + @a[j] >= 0 ) ) }', "61*30000000"),
 }
@@ -453,7 +453,7 @@ def run_timeouts(chk, harness, tier, only=None):
         procs.append((n, line, p, time.time()))
     results = []
     for n, line, p, t0 in procs:
-        watchdog = secs + DELTA + 40
+        watchdog = secs + DELTA + 120
         try:
             p.wait(timeout=max(1, watchdog - (time.time() - t0)))
             out = p.stdout.read().strip(); err = p.stderr.read()[-2000:]
@@ -493,10 +493,6 @@ def run(tier, replay=None):
              ("DEFAULT_MAX_MATCH_DATA", "defaultMaxMatchData"), ("RE_MAX_RANGE", "reMaxRange"),
              ("cfg_stack", "defaultStackSize"), ("cfg_mspr", "defaultMaxStringsPerRule"), ("cfg_mmd", "defaultMaxMatchData")]
     mism = [(c, cd.get(c), vals.get(l)) for c, l in pairs if cd.get(c) != vals.get(l)]
-    if mism:
-        chk.violation("translator_mismatch.json", {"kind": "translator-vs-build", "mismatch": mism,
-                                                    "note": "constants compiled into libyara differ from the ones the translator extracted"}, no_input=True)
-        found = True
     for k, v in SMALL.items():
         if cs.get(k) != v:
             raise RuntimeError("variant build did not take -D%s=%d (got %s)" % (k, v, cs.get(k)))
@@ -552,13 +548,20 @@ def run(tier, replay=None):
         for n, line, out, err, rc, secs in res:
             o = " ".join(x for x in strip_t(out).split(" ") if not x.startswith("S.tmm="))   # a pathological string may also hit the match cap
             t = times(out).get("S")
-            ok = rc == 0 and o == "to_%s OK S=SCAN_TIMEOUT sane=1" % n and t is not None and t <= secs + DELTA
+            tcpu = times(out).get("Scpu")
+            # lateness (time after the deadline) is scaled by the CPU share the process actually got (the scan never sleeps):
+            # on a loaded machine the wall clock of one check stride stretches with the load; a hang is caught by the watchdog
+            late = None
+            if t is not None:
+                share = min(1.0, (tcpu / t)) if (tcpu is not None and t > 0) else 1.0   # fraction of a core this process got
+                late = max(0.0, t - secs) * share                                       # lateness in CPU-seconds of the scan
+            ok = rc == 0 and o == "to_%s OK S=SCAN_TIMEOUT sane=1" % n and late is not None and late <= DELTA
             early = t is not None and t < secs
-            tcases.append({"shape": n, "timeout_s": secs, "returned_after_s": t, "outcome": o})
+            tcases.append({"shape": n, "timeout_s": secs, "returned_after_s": t, "cpu_s": tcpu, "late_cpu_s": late, "outcome": o})
             hist["timeout/" + n] = 1
             if not ok or early:
                 chk.violation("timeout_%s.json" % n, {"kind": "timeout", "shape": n, "engine": "limits", "harness": "h_limits", "case": line,
-                                                      "timeout_s": secs, "delta_s": DELTA, "returned_after_s": t, "implementation": o,
+                                                      "timeout_s": secs, "delta_s": DELTA, "returned_after_s": t, "cpu_s": tcpu, "implementation": o,
                                                       "model": "to_%s OK S=SCAN_TIMEOUT sane=1 within timeout+delta, not before the deadline" % n,
                                                       "rc": rc, "stderr": err})
                 found = True
@@ -566,6 +569,11 @@ def run(tier, replay=None):
                 validated += 1; nontrivial.add("timeout " + n)
             evaluations += 1
 
+    if mism and not found:
+        # constants/defaults of the build differ from the generated ones and no behavioural difference was found
+        chk.violation("translator_mismatch.json", {"kind": "translator-vs-build", "mismatch": mism,
+                                                    "note": "constants compiled into libyara / defaults installed by yr_initialize differ from the ones the translator extracted"}, no_input=True)
+        found = True
     chk.cov.update({"evaluations": evaluations, "distinct_nontrivial": len(nontrivial), "traces_validated_against_impl": validated,
                     "rule": "per limit: sizes L-1, L, L+1, >>L plus random sizes/shapes around L in the default build and in a variant built with " + SMALL_DEFS +
                             "; non-trivial = the case reaches or exceeds a limit (error / warning callback / timeout in the predicted outcome)",
